@@ -55,7 +55,7 @@ def _case(draw, tier):
     kw = {}
     if name.startswith("Parallel"):
         kw["batch_sizes"] = [1]
-    case = draw(gen.pool_case([name], vary_model=True, **kw))
+    case = draw(gen.pool_case([name], vary_model=True, use_alt=True, **kw))
     case["return_utilities"] = draw(st.booleans())
     return case
 
